@@ -25,45 +25,30 @@ theorem flatMap_encBytes_length (C : Codecs) (typ : String) (size : Nat) (vs : L
     simp only [List.flatMap_cons, List.length_append, List.length_cons, Nat.mul_succ]
     rw [h v (List.mem_cons_self ..), ih (fun y hy => h y (List.mem_cons_of_mem _ hy))]; omega
 
-/-- what the run may rely on in the receiving structure (`recvFields`): a fixed array `(f, true)` has the length the
-    sender's has; an optional integer `(f, false)` the sender holds as zero is zero -/
-def Recv (fs : List (String × Bool)) (e env' : Env) : Prop :=
-  ∀ p ∈ fs,
-    (p.2 = true → ∃ old xs, e.get p.1 = some (.ns old) ∧ env'.get p.1 = some (.ns xs) ∧ old.length = xs.length) ∧
-    (p.2 = false → env'.get p.1 = some (.n 0) → e.get p.1 = some (.n 0))
+/-- what the run may rely on in the receiving structure (`recvFields`): a fixed array has the length the sender's has -/
+def Recv (fs : List String) (e env' : Env) : Prop :=
+  ∀ f ∈ fs, ∃ old xs, e.get f = some (.ns old) ∧ env'.get f = some (.ns xs) ∧ old.length = xs.length
 
-theorem Recv.set {fs : List (String × Bool)} {e env' : Env} (h : Recv fs e env') (g : String) (v : Val)
+theorem Recv.set {fs : List String} {e env' : Env} (h : Recv fs e env') (g : String) (v : Val)
     (hv : env'.get g = some v) : Recv fs (e.set g v) env' := by
-  intro p hp
-  obtain ⟨hs, hf⟩ := h p hp
-  by_cases hfg : p.1 = g
-  · refine ⟨fun hp2 => ?_, fun hp2 h0 => ?_⟩
-    · obtain ⟨old, xs, h1, h2, h3⟩ := hs hp2
-      rw [hfg] at h2
-      rw [h2] at hv
-      injection hv with hv
-      subst hv
-      exact ⟨xs, xs, by rw [hfg]; exact Env.get_set_self _ _ _, by rw [hfg]; exact h2, rfl⟩
-    · rw [hfg] at h0 ⊢
-      rw [h0] at hv
-      injection hv with hv
-      subst hv
-      exact Env.get_set_self _ _ _
-  · refine ⟨fun hp2 => ?_, fun hp2 h0 => ?_⟩
-    · obtain ⟨old, xs, h1, h2, h3⟩ := hs hp2
-      exact ⟨old, xs, by rw [Env.get_set_ne _ _ _ _ hfg]; exact h1, h2, h3⟩
-    · rw [Env.get_set_ne _ _ _ _ hfg]; exact hf hp2 h0
+  intro f hf
+  obtain ⟨old, xs, h1, h2, h3⟩ := h f hf
+  by_cases hfg : f = g
+  · rw [hfg] at h2
+    rw [h2] at hv
+    injection hv with hv
+    subst hv
+    exact ⟨xs, xs, by rw [hfg]; exact Env.get_set_self _ _ _, by rw [hfg]; exact h2, rfl⟩
+  · exact ⟨old, xs, by rw [Env.get_set_ne _ _ _ _ hfg]; exact h1, h2, h3⟩
 
-theorem Recv.congr_left {fs : List (String × Bool)} {e e2 env' : Env} (h : Recv fs e env') (hg : ∀ x, e2.get x = e.get x) :
+theorem Recv.congr_left {fs : List String} {e e2 env' : Env} (h : Recv fs e env') (hg : ∀ x, e2.get x = e.get x) :
     Recv fs e2 env' := by
-  intro p hp
-  obtain ⟨hs, hf⟩ := h p hp
-  refine ⟨fun hp2 => ?_, fun hp2 h0 => by rw [hg]; exact hf hp2 h0⟩
-  obtain ⟨old, xs, h1, h2, h3⟩ := hs hp2
+  intro f hf
+  obtain ⟨old, xs, h1, h2, h3⟩ := h f hf
   exact ⟨old, xs, by rw [hg]; exact h1, h2, h3⟩
 
-theorem Recv.sized {fs : List (String × Bool)} {e env' : Env} (h : Recv fs e env') {f : String} (hf : (f, true) ∈ fs) :
-    ∃ old xs, e.get f = some (.ns old) ∧ env'.get f = some (.ns xs) ∧ old.length = xs.length := (h (f, true) hf).1 rfl
+theorem Recv.sized {fs : List String} {e env' : Env} (h : Recv fs e env') {f : String} (hf : f ∈ fs) :
+    ∃ old xs, e.get f = some (.ns old) ∧ env'.get f = some (.ns xs) ∧ old.length = xs.length := h f hf
 
 theorem Agree.congr_left {fs : List String} {e e2 env' : Env} (h : Agree fs e env') (hg : ∀ x, e2.get x = e.get x) :
     Agree fs e2 env' := fun f hf => by rw [hg]; exact h f hf
@@ -308,8 +293,8 @@ theorem guard_passesL {C : Codecs} {T : String → Prop} (hC : LawfulCodecs C T)
     have hlen := congrArg List.length hblk
     simp only [Slot.blk, slotBytes, hget, List.length_append] at hlen
     omega
-  | case23 k b' n b'' w e' f m r hc _ => intro u pos seen s pad _ _ hg; simp [guardFitsL] at hg
-  | case24 k b' n b'' w e' f m r hc => intro u pos seen s pad hl; simp [layoutUL, hc] at hl
+  | case23 f0 k b' n b'' w e' f m r hc _ => intro u pos seen s pad _ _ hg; simp [guardFitsL] at hg
+  | case24 f0 k b' n b'' w e' f m r hc => intro u pos seen s pad hl; simp [layoutUL, hc] at hl
   | case25 e' r _ => intro u pos seen s pad _ _ hg; simp [guardFitsL] at hg
   | case26 r _ => intro u pos seen s pad _ _ hg; simp [guardFitsL] at hg
   | case27 r _ => intro u pos seen s pad _ _ hg; simp [guardFitsL] at hg
@@ -698,65 +683,69 @@ theorem runU_go_layoutL {C : Codecs} {T : String → Prop} (hC : LawfulCodecs C 
     · simp only [List.map_cons, List.map_nil, List.mem_singleton, Slot.field] at hg
       subst hg
       exact hag' g (List.mem_cons_self ..)
-  | case23 k b n b' w e f m r hcond ih =>
+  | case23 f0 k b n b' w e f m r hcond ih =>
     intro u pos seen s pad hl hok hrel hfit hrest hinv hag hsz hwc hpd hpl
-    obtain ⟨rfl, hn, hm⟩ := hcond
+    simp only [recvFields] at hsz
+    obtain ⟨rfl, rfl, hn, hm⟩ := hcond
     subst hm
     subst hn
     simp only [layoutUL, and_self, if_true, Option.map_eq_some_iff] at hl
     obtain ⟨u', hl', rfl⟩ := hl
     simp only [okUL, Bool.and_eq_true] at hok
     have hrel' : relationsHold C env' plen pad r = true := by
-      unfold relationsHold at hrel; rw [Bool.and_eq_true] at hrel; exact hrel.2
-    obtain ⟨x, hx, hlt⟩ := hfit (.opt b n e f (some k)) (List.mem_cons_self ..)
-    obtain ⟨pre, hblk, hoff⟩ := hinv.at (sl := .opt b n e f (some k)) hok.1
-    have hiff := hwc b n e f k (List.mem_cons_self ..) x hx
-    have hsz' : Recv (recvFields r) s.env env' := fun p hp => hsz p (by simp [recvFields, hp])
+      have h1 : relationsHold C env' plen pad
+          (.ifWordCount k [.guard b (.lit n), .readInt b n e f0, .advance (.lit n)] :: r) = true := by
+        simpa [relationsHold] using hrel
+      unfold relationsHold at h1; rw [Bool.and_eq_true] at h1; exact h1.2
+    obtain ⟨x, hx, hlt⟩ := hfit (.opt b n e f0 (some k)) (List.mem_cons_self ..)
+    obtain ⟨pre, hblk, hoff⟩ := hinv.at (sl := .opt b n e f0 (some k)) hok.1
+    have hiff := hwc b n e f0 k (List.mem_cons_self ..) x hx
+    -- `c.F = 0` first: whatever the receiver held is gone
+    let s1 : UState := { s with env := s.env.set f0 (.n 0) }
+    have h0 : runUStmt C s (.zeroInt f0) = .next s1 := by rw [runUStmt]
     by_cases hx0 : x = 0
-    · -- the field is not on the wire, the word count says so, and the receiver holds zero already
-      have hne : ¬ s.wordCount = k := fun h => (hiff.mp h) hx0
-      have h1 : runUStmt C s (.ifWordCount k [.guard b (.lit n), .readInt b n e f, .advance (.lit n)]) = .next s := by
+    · -- the field is not on the wire, the word count says so, and the reset has put zero there
+      have hne : ¬ s1.wordCount = k := fun h => (hiff.mp h) hx0
+      have h1 : runUStmt C s1 (.ifWordCount k [.guard b (.lit n), .readInt b n e f0, .advance (.lit n)]) = .next s1 := by
         rw [runUStmt, if_neg hne]
-      have hsb : slotBytes C env' (.opt b n e f (some k)) = [] := by simp [slotBytes, hx, hx0]
-      have hinv' := hinv.step (sl := .opt b n e f (some k)) hok.1
+      have hsb : slotBytes C env' (.opt b n e f0 (some k)) = [] := by simp [slotBytes, hx, hx0]
+      have hinv' := hinv.step (sl := .opt b n e f0 (some k)) hok.1
       rw [hsb] at hinv'
       simp only [List.length_nil, Nat.add_zero] at hinv'
-      have hsf : s.env.get f = some (.n 0) := (hsz (f, false) (by simp [recvFields])).2 rfl (by rw [hx, hx0])
-      have hag' : Agree (f :: seen) s.env env' := by
-        intro g hg
-        rcases List.mem_cons.mp hg with rfl | hg
-        · rw [hsf, hx, hx0]
-        · exact hag g hg
-      obtain ⟨d, hd, hseen, hagree⟩ := ih u' (pos.read b) (f :: seen) s pad hl' hok.2 hrel'
-        (fun sl h => hfit sl (List.mem_cons_of_mem _ h)) (restOnlyLast_tail hrest) hinv' hag' hsz' hwc.tail hpd hpl
-      exact ⟨d, by rw [go_next r h1]; exact hd, fun g hg => hseen g (List.mem_cons_of_mem _ hg),
+      have hx' : env'.get f0 = some (.n 0) := by rw [hx, hx0]
+      obtain ⟨d, hd, hseen, hagree⟩ := ih u' (pos.read b) (f0 :: seen) s1 pad hl' hok.2 hrel'
+        (fun sl h => hfit sl (List.mem_cons_of_mem _ h)) (restOnlyLast_tail hrest) hinv' (hag.set f0 (.n 0) hx')
+        (hsz.set f0 (.n 0) hx') hwc.tail hpd hpl
+      exact ⟨d, by rw [go_next2 r h0 h1]; exact hd, fun g hg => hseen g (List.mem_cons_of_mem _ hg),
         fun hnf g hg => hagree hnf g (mem_shift hg)⟩
     · -- the field is on the wire and the word count says so
-      have heq : s.wordCount = k := hiff.mpr hx0
-      have hsb : slotBytes C env' (.opt b n e f (some k)) = intBytes n e x := by simp [slotBytes, hx, hx0]
+      have heq : s1.wordCount = k := hiff.mpr hx0
+      have hsb : slotBytes C env' (.opt b n e f0 (some k)) = intBytes n e x := by simp [slotBytes, hx, hx0]
       rw [hsb] at hblk
-      have hblk' : s.blk b = pre ++ (intBytes n e x ++ layoutBytes C env' (u'.filter (·.blk == b))) :=
+      have hblk' : s1.blk b = pre ++ (intBytes n e x ++ layoutBytes C env' (u'.filter (·.blk == b))) :=
         (blk_eq_pick s b).trans hblk
-      have hg : runUStmt C s (.guard b (.lit n)) = .next s := by
+      have hg : runUStmt C s1 (.guard b (.lit n)) = .next s1 := by
         rw [runUStmt]
         simp only [evalExpr]
-        rw [if_neg (by rw [hblk']; simp only [List.length_append, intBytes_length]; omega)]
-      have hr := step_readInt C s b n e f pre _ _ hblk' hoff (intBytes_length n e x).symm
+        rw [if_neg (by rw [hblk']; simp only [List.length_append, intBytes_length]; show ¬ _ < s.offset + n; omega)]
+      have hr := step_readInt C s1 b n e f0 pre _ _ hblk' hoff (intBytes_length n e x).symm
       rw [intVal_intBytes n e x hlt] at hr
-      have ha := step_advance C { s with env := s.env.set f (.n x) } (.lit n) n rfl
-      have h1 : runUStmt C s (.ifWordCount k [.guard b (.lit n), .readInt b n e f, .advance (.lit n)]) =
-          .next { s with env := s.env.set f (.n x), offset := s.offset + n } := by
+      have ha := step_advance C { s1 with env := s1.env.set f0 (.n x) } (.lit n) n rfl
+      have h1 : runUStmt C s1 (.ifWordCount k [.guard b (.lit n), .readInt b n e f0, .advance (.lit n)]) =
+          .next { s1 with env := s1.env.set f0 (.n x), offset := s1.offset + n } := by
         rw [runUStmt, if_pos heq]
         simp only [runUStmts, hg, hr, ha]
-      have hinv' := hinv.step (sl := .opt b n e f (some k)) hok.1
+      have hinv' := hinv.step (sl := .opt b n e f0 (some k)) hok.1
       rw [hsb, intBytes_length] at hinv'
-      obtain ⟨d, hd, hseen, hagree⟩ := ih u' (pos.read b) (f :: seen)
-        { s with env := s.env.set f (.n x), offset := s.offset + n } pad hl' hok.2 hrel'
-        (fun sl h => hfit sl (List.mem_cons_of_mem _ h)) (restOnlyLast_tail hrest) hinv' (hag.set f (.n x) hx)
-        (hsz'.set f (.n x) hx) hwc.tail hpd hpl
-      exact ⟨d, by rw [go_next r h1]; exact hd, fun g hg => hseen g (List.mem_cons_of_mem _ hg),
+      have hgs : ∀ y, ((s.env.set f0 (.n 0)).set f0 (.n x)).get y = (s.env.set f0 (.n x)).get y := by
+        intro y; simp only [Env.get_set]; split <;> rfl
+      obtain ⟨d, hd, hseen, hagree⟩ := ih u' (pos.read b) (f0 :: seen)
+        { s1 with env := s1.env.set f0 (.n x), offset := s1.offset + n } pad hl' hok.2 hrel'
+        (fun sl h => hfit sl (List.mem_cons_of_mem _ h)) (restOnlyLast_tail hrest) hinv'
+        ((hag.set f0 (.n x) hx).congr_left hgs) ((hsz.set f0 (.n x) hx).congr_left hgs) hwc.tail hpd hpl
+      exact ⟨d, by rw [go_next2 r h0 h1]; exact hd, fun g hg => hseen g (List.mem_cons_of_mem _ hg),
         fun hnf g hg => hagree hnf g (mem_shift hg)⟩
-  | case24 k b n b' w e f m r hc => intro u pos seen s pad hl; simp [layoutUL, hc] at hl
+  | case24 f0 k b n b' w e f m r hc => intro u pos seen s pad hl; simp [layoutUL, hc] at hl
   | case25 e r ih =>
     intro u pos seen s pad hl hok hrel hfit hrest hinv hag hsz hwc hpd hpl
     simp only [recvFields] at hsz
